@@ -901,7 +901,7 @@ EXITS = ('exit', '_Exit', 'quick_exit')
 
 
 def rule_r12(rep, idxs):
-    rep.rule('R12', 'a direct exit from main() outside the --help branch is an error exit: every std::exit reached from main (directly or '
+    rep.rule('R12', 'a direct exit from main() outside the branches of informational options (--help ...) is an error exit: every std::exit reached from main (directly or '
              'through a usage()/help() helper, the status followed through the helper\'s parameter and its default) that does not sit '
              'under the test for -h/--help passes a non-zero status (e.g. "a file must be specified" produces no output, so it must '
              'not report success)', floor=5)
@@ -919,8 +919,8 @@ def rule_r12(rep, idxs):
                 p_ = parents[id(x)]
                 if p_['kind'] == 'IfStmt' and children(p_)[0] is not x and len(children(p_)) > 1 and any(z is x for z in walk(children(p_)[1])):
                     lits = [cast.string_lit(c) for c in cast.calls_in(children(p_)[0]) if callee_of(c)[1] == 'strcmp']
-                    if any(l in ('-h', '--help') for l in lits):
-                        return True
+                    if any(isinstance(l, str) and l.startswith('-') for l in lits):
+                        return True      # an exit requested by an option (--help, --version, ...): its status is not an error report
                 x = p_
             return False
 
@@ -957,7 +957,7 @@ def rule_r12(rep, idxs):
                 n += 1
                 key = '%s:main:%s@%s' % (tu, how, pos(c).split(':')[-1])
                 if help_branch(c):
-                    rep.add('R12', key, True, pos(c) + ' main(%s)' % tu, 'exit on the --help path (status %r)' % v, nontrivial=False)
+                    rep.add('R12', key, True, pos(c) + ' main(%s)' % tu, 'exit requested by an option such as --help (status %r, not judged)' % v, nontrivial=False)
                 elif v is None:
                     rep.undecided('R12', key, 'exit status is not a constant', pos(c) + ' main(%s)' % tu)
                 else:
